@@ -548,6 +548,73 @@ def rule_nosign(repo):
     return res
 
 
+def _corner(repo, name, depth=0):
+    """abstract value of the bottom row of the matrix a *_Matrix4x4 / SE3_Matrix helper returns: 'e4' (0, 0, 0, 1) | 'zero' | None (not understood)"""
+    if depth > 3:
+        return None
+    f = repo.func(OP, name)
+    rets = returns_of(f.node)
+    if len(rets) != 1:
+        return None
+    inl = inline_straight(f.node, upto=rets[0])
+    v = inl.value(rets[0].value)
+    # in-place stores into the returned buffer must stay off row 3
+    for bk, idx, val, st in inline_straight(f.node).stores:
+        pat = _block(idx)
+        if pat is None or not (pat[0] in (':3', '0:3')):
+            return None
+    def root(e):
+        while isinstance(e, ast.Call) and isinstance(e.func, ast.Attribute) and e.func.attr in ('repeat', 'expand', 'clone', 'contiguous', 'to', 'type_as', 'expand_as') \
+                and not (dotted(e.func) or '').startswith('torch.'):
+            e = e.func.value
+        return e
+    # the inliner shows in-place block stores as $upd(base, index, value): the stores were checked above, the base decides the bottom row
+    while isinstance(v, ast.Call) and isinstance(v.func, ast.Name) and v.func.id == '$upd' and v.args:
+        v = v.args[0]
+    r = root(v)
+    if isinstance(r, ast.Call):
+        d = dotted(r.func) or ''
+        if d == 'torch.eye' and r.args and isinstance(r.args[0], ast.Constant) and r.args[0].value == 4:
+            return 'e4'
+        if d.split('.')[-1] == 'pad' and len(r.args) >= 2 and isinstance(r.args[1], (ast.Tuple, ast.List)):
+            pads = [x.value if isinstance(x, ast.Constant) else None for x in r.args[1].elts]
+            fill = [k.value for k in r.keywords if k.arg == 'value']
+            if pads == [0, 1, 0, 1] and (not fill or (isinstance(fill[0], ast.Constant) and fill[0].value in (0, 0.0))):
+                return 'zero'
+            return None
+        if d in ('torch.cat', 'torch.concat') and r.args and isinstance(r.args[0], (ast.List, ast.Tuple)):
+            ax = [k.value for k in r.keywords if k.arg == 'dim'] or list(r.args[1:2])
+            axv = ax[0] if ax else None
+            if isinstance(axv, ast.UnaryOp) and isinstance(axv.op, ast.USub) and isinstance(axv.operand, ast.Constant) and axv.operand.value == 2:
+                last = root(r.args[0].elts[-1])
+                if isinstance(last, ast.Call) and dotted(last.func) == 'torch.tensor' and last.args and isinstance(last.args[0], (ast.List, ast.Tuple)):
+                    vals = [x.value if isinstance(x, ast.Constant) else None for x in last.args[0].elts]
+                    return 'e4' if vals == [0, 0, 0, 1] else ('zero' if vals == [0, 0, 0, 0] else None)
+            return None
+        if isinstance(r.func, ast.Name) and r.func.id in repo.module(OP).functions:
+            return _corner(repo, r.func.id, depth + 1)
+    return None
+
+
+@guarded
+def rule_homo(repo, rid='C03.HOMO'):
+    """A 4x4 homogeneous matrix of a transformation has the bottom row (0, 0, 0, 1): Act on 4-vectors passes the homogeneous coordinate through, and the
+    Jacobian of Act4 with respect to the point is this matrix (the backward of the four *_Act4 operations multiplies the cotangent with it).  The helpers
+    start from eye(4) / append the row (0, 0, 0, 1); zero padding of the 3x3 block leaves a zero corner - invisible to every use that reads rows 0..2 only."""
+    res = RuleResult(rid, 'every *_Matrix4x4 helper returns a matrix whose bottom row is (0, 0, 0, 1) (built from eye(4) or by appending that row; block stores '
+                     'stay off row 3)', floor=4)
+    for h in ('SO3_Matrix4x4', 'SE3_Matrix4x4', 'RxSO3_Matrix4x4', 'Sim3_Matrix4x4'):
+        f = repo.func(OP, h)
+        c = _corner(repo, h)
+        res.inst({'function': f.fq, 'bottom row': {'e4': '(0, 0, 0, 1)', 'zero': '(0, 0, 0, 0)', None: 'not understood'}[c]}, f.fq)
+        if c is None:
+            raise AnalysisError('%s: the construction of %s was not understood' % (rid, h))
+        if c != 'e4':
+            res.add(Finding(rid, f, '%s returns a matrix with a ZERO bottom row (zero padding of the 3x3 block): the homogeneous coordinate of a 4-vector is mapped to 0 and '
+                            'the point gradient of Act on 4-vectors loses d q_w / d p_w = 1' % h, construct='zero homogeneous corner'))
+    return res
+
+
 def rules(repo, tier):
     from ..memo import rule_memo
     from ..optional import rule_optional
@@ -555,7 +622,7 @@ def rules(repo, tier):
     from ..callsig import rule_callsig
     from ..docsig import rule_docsig
     from ..axisdefault import rule_axisdefault
-    return list(_rules_core(repo, tier)) + [rule_memo(repo, 'C03.MEMO', 'history independence: nothing computed from the contents of a tensor argument is kept '
+    return list(_rules_core(repo, tier)) + [rule_homo(repo), rule_memo(repo, 'C03.MEMO', 'history independence: nothing computed from the contents of a tensor argument is kept '
                                                       'under the identity, address or version of that tensor, in module-level storage, or published from a generator '
                                                       'before it is complete - a later call with the same object and other contents must not be answered from it',
                                                       ['pypose.lietensor.lietensor', 'pypose.lietensor.operation', 'pypose.lietensor.basics', 'pypose.lietensor.utils'], floor=3),
